@@ -35,6 +35,25 @@ Proof. exact no_stutter_iter. Qed.
 Theorem C08_zero_time_bounded : forall n f w, live w -> zero_time_run n (S f) w -> (n <= measure w)%nat.
 Proof. exact zero_time_bounded. Qed.
 
+(* a cache that answers every query at once with Cache Reset: ten iterations without the clock moving, the measure falls *)
+Theorem C08_zero_time_example :
+  live st_w0 /\ zero_time_run 10 100 st_w0 /\
+  map (fun n => measure (run_fsm n 100 st_w0)) (seq 0 11) = [112; 110; 108; 75; 74; 72; 39; 38; 36; 3; 2]%nat /\
+  map (fun n => now (run_fsm n 100 st_w0)) (seq 0 11) = repeat 1000 11.
+Proof. exact zero_time_chain. Qed.
+
+(* reconnects are paced: CONNECTING is entered only from ERROR_TRANSPORT / ERROR_FATAL, after sleeping retry_iv, or from
+   FAST_RECONNECT (entered only by the one-off version downgrade, C13); a connection attempt never leads straight back
+   to CONNECTING.  So two consecutive transport opens are separated by a retry sleep or by consumed input. *)
+Theorem C08_reconnect_paced : forall f w, live w ->
+  match fsm_step f w with
+  | Ok _ w' => st (sk w') = c_RTR_CONNECTING ->
+       ((st (sk w) = c_RTR_ERROR_TRANSPORT \/ st (sk w) = c_RTR_ERROR_FATAL) /\ now w' = now w + retry_iv (sk w)) \/
+       st (sk w) = c_RTR_FAST_RECONNECT
+  | Exc _ _ => True
+  end.
+Proof. exact reconnect_paced. Qed.
+
 (* (2) the bookkeeping invariant in every reachable world *)
 Theorem C08_inv : forall n fuel w, Inv w ->
   let w' := run_fsm n fuel w in
@@ -121,3 +140,5 @@ Print Assumptions C08_receive_any_chunking.
 Print Assumptions C08_one_good_exchange.
 Print Assumptions C08_one_good_exchange_example.
 Print Assumptions C08_converge_partial.
+Print Assumptions C08_zero_time_example.
+Print Assumptions C08_reconnect_paced.
